@@ -362,3 +362,58 @@ func ZzC03() {
 		zz.Assert(head.ID < zzForeign, "Head() never returns an unverified header")
 	}
 }
+
+// ZzC03Concurrent: G gossip deliveries run as their own goroutines (the pubsub validator is called
+// concurrently for different messages), so that one delivery can land while another one is in the middle
+// of its bifurcation (scheduling points: every getter request). Oracles at quiescence plus a monotone
+// subjective head observed by the main thread.
+func ZzC03Concurrent() {
+	ctx := context.Background()
+	K := zz.Param("K", 6)
+	G := zz.Param("G", 2)
+	env := zzNewSyncEnv(ctx, K, 1, 0, true)
+	done := 0
+	for n := 0; n < G; n++ {
+		n := n
+		var h *zh.Hdr
+		if zz.Param("CANON", 0) == 1 {
+			h = env.chain[zz.Choice("gossip.canon", K)] // valid heads only: the interplay of two bifurcations
+		} else {
+			h = env.gossipHeader(n)
+		}
+		go func() {
+			zz.Gate("deliverer:start")
+			err := env.deliver(ctx, h)
+			if h.ID >= zzForeign {
+				zz.Assert(err != nil, "a forged / forked / wrong-chain / future-dated header must be refused")
+				if err != nil {
+					zz.Assert(!env.pendingHas(h), "a refused header must not become a sync target")
+				}
+			}
+			done++
+		}()
+	}
+	last := uint64(0)
+	for o := 0; o < 2; o++ {
+		zz.Gate("main:observe")
+		if sbj, err := env.s.localHead(ctx); err == nil && sbj != nil {
+			zz.Assert(sbj.H >= last, "the subjective head never moves backwards")
+			zz.Assert(sbj.ID < zzForeign, "the subjective head is a verified header")
+			last = sbj.H
+		}
+		env.checkStoreAt(false)
+	}
+	zz.Quiesce()
+	zz.Assert(done == G, "every delivery returns")
+	env.checkStore()
+	zz.Reach("quiescent")
+	if sbj, err := env.s.localHead(ctx); err == nil && sbj != nil {
+		zz.Assert(sbj.H >= last, "the subjective head never moves backwards")
+		zz.Assert(sbj.ID < zzForeign, "the subjective head is a verified header")
+	}
+	for _, r := range env.s.pending.ranges {
+		for i := 1; i < len(r.headers); i++ {
+			zz.Assert(r.headers[i].H == r.headers[i-1].H+1, "a pending range is ascending by one")
+		}
+	}
+}
